@@ -36,6 +36,13 @@ pub fn universe() -> Vec<Option<J>> {
             J::Int(MAX_SAFE),
             J::Int(-MAX_SAFE),
             J::Float((MAX_SAFE - 1) as f64),
+            // beyond the I-JSON range (see gen::BIG_INTS)
+            J::Int(1 << 53),
+            J::Float((1u64 << 53) as f64),
+            J::Int(i64::MAX),
+            J::Int(i64::MIN),
+            J::UInt((1 << 63) + 2048),
+            J::UInt(u64::MAX),
             J::Float(0.1 + 0.2),
             J::Float(0.3),
             J::Float(1e-17),
@@ -110,6 +117,8 @@ fn operand(form: Form, side: &str, val: &Option<J>, alt_spelling: u32) -> Option
             None => return None,
             Some(J::Null) => Lit::Null,
             Some(J::Bool(b)) => Lit::Bool(*b),
+            Some(J::Int(i)) if i.unsigned_abs() > MAX_SAFE as u64 => Lit::Num(exact_float_lit_i(*i)?),
+            Some(J::UInt(u)) => Lit::Num(exact_float_lit_u(*u)?),
             Some(J::Int(i)) => Lit::Num(match alt_spelling % 3 {
                 0 => num_lit_int(*i),
                 1 if i.abs() < 1_000_000 => NumLit { text: format!("{}.0", i), val: *i as f64, int_text: false },
@@ -159,7 +168,7 @@ fn kind(v: &Option<J>) -> &'static str {
         None => "nothing",
         Some(J::Null) => "null",
         Some(J::Bool(_)) => "bool",
-        Some(J::Int(_)) | Some(J::Float(_)) => "number",
+        Some(J::Int(_)) | Some(J::UInt(_)) | Some(J::Float(_)) => "number",
         Some(J::Str(_)) => "string",
         Some(J::Arr(_)) => "array",
         Some(J::Obj(_)) => "object",
@@ -346,7 +355,7 @@ fn table_fn_numbers(obs: &mut Obs, _thorough: bool) -> Res {
 /// a copy that must compare equal: numbers respelled (int <-> float when integral), members reordered
 fn equal_copy(src: &mut Src, v: &J) -> J {
     match v {
-        J::Int(i) if i.abs() < (1 << 50) && src.bool() => J::Float(*i as f64),
+        J::Int(i) if i.unsigned_abs() < (1 << 50) && src.bool() => J::Float(*i as f64),
         J::Float(f) if f.fract() == 0.0 && f.abs() < 1e15 && !(*f == 0.0 && f.is_sign_negative()) && src.bool() => J::Int(*f as i64),
         J::Arr(a) => J::Arr(a.iter().map(|x| equal_copy(src, x)).collect()),
         J::Obj(m) => {
@@ -373,12 +382,14 @@ fn unequal_copy(src: &mut Src, v: &J) -> Option<J> {
         J::Bool(b) => J::Bool(!*b),
         J::Int(i) => {
             if src.bool() {
-                J::Int(*i + 1)
+                // the neighbour (beyond 2^53 it has the same double)
+                J::Int(if *i == i64::MAX { *i - 1 } else { *i + 1 })
             } else {
                 J::Str(i.to_string())
             }
         }
         J::Float(f) => J::Float(*f + 0.5),
+        J::UInt(u) => J::UInt(*u - 2048),
         J::Str(x) => J::Str(format!("{}a", x)),
         J::Arr(a) => {
             let mut a = a.clone();
